@@ -594,6 +594,9 @@ func (fr *frame) visit(instr ssa.Instruction) continuation {
 		mt := in.Type().Underlying().(*types.Map)
 		fr.set(in, &MapV{KT: mt.Key(), VT: mt.Elem()})
 	case *ssa.Range:
+		if m, ok := fr.get(in.X).(*MapV); ok && m != nil {
+			p.raceAccess(fr, m, false, "a map")
+		}
 		fr.set(in, p.rangeIter(fr.get(in.X), in.X.Type()))
 	case *ssa.Next:
 		fr.set(in, fr.get(in.Iter).(iterator).next(fr))
@@ -622,6 +625,7 @@ func (fr *frame) visit(instr ssa.Instruction) continuation {
 		if m == nil {
 			panic(&goPanic{kind: "nil-map", msg: "assignment to entry in nil map"})
 		}
+		p.raceAccess(fr, m, true, "a map")
 		p.mapInsert(m, fr.get(in.Key), copyVal(fr.get(in.Value)))
 	case *ssa.TypeAssert:
 		fr.set(in, fr.typeAssert(in))
@@ -978,6 +982,7 @@ func (p *Path) callBuiltin(fr *frame, b *ssa.Builtin, args []Value) Value {
 			if x == nil {
 				return BVI(64, 0)
 			}
+			p.raceAccess(fr, x, false, "a map")
 			return BVI(64, int64(len(x.Entries)))
 		case *ChanV:
 			if x == nil {
@@ -1007,6 +1012,7 @@ func (p *Path) callBuiltin(fr *frame, b *ssa.Builtin, args []Value) Value {
 	case "delete":
 		m, _ := args[0].(*MapV)
 		if m != nil {
+			p.raceAccess(fr, m, true, "a map")
 			p.mapDelete(m, args[1])
 		}
 		return nil
